@@ -28,6 +28,7 @@ Section Generic.
   Variable wire : list M -> bytes.
   Variable flat_m : list M -> list I.             (* what the property compares on the sending side *)
   Variable flat_o : list O -> list I.             (* ... and on the receiving side *)
+  Variable fin : R -> list I.                     (* items a receiver holds back (fixed-size chunk assembly); [] elsewhere *)
   Variable rem : S -> bytes.
   Variable SI : S -> list M -> Prop.
   Variable RRel : R -> bytes -> list O -> Prop.
@@ -50,7 +51,7 @@ Section Generic.
       Forall wfm ms -> wire ms = c ++ rest -> RRel r c o ->
       exists tl, flat_m ms = flat_o o ++ tl.
   Hypothesis decode_complete : forall ms r o,
-      Forall wfm ms -> RRel r (wire ms) o -> flat_o o = flat_m ms.
+      Forall wfm ms -> RRel r (wire ms) o -> flat_o o ++ fin r = flat_m ms.
 
   Notation sys := (@sys M O S R).
   Notation step := (sys_step queue do_out do_in).
@@ -121,7 +122,7 @@ Section Generic.
   Theorem completeness evs :
     Forall ev_wf evs ->
     rem (s_snd (run sys0 evs)) = [] -> s_pipe (run sys0 evs) = [] ->
-    flat_o (s_dlv (run sys0 evs)) = flat_m (ev_msgs evs).
+    flat_o (s_dlv (run sys0 evs)) ++ fin (s_rcv (run sys0 evs)) = flat_m (ev_msgs evs).
   Proof.
     intros Hf Hr Hp.
     destruct (sys_inv_run evs sys0 sys_inv_init Hf) as (Hwf & HS & c & Hw & HR).
@@ -299,7 +300,7 @@ Section Generic.
     Forall ev_wf evs -> Forall round rs ->
     (measure (run sys0 evs) <= length rs)%nat ->
     let st := run sys0 (evs ++ concat rs) in
-    quiet st /\ flat_o (s_dlv st) = flat_m (ev_msgs evs).
+    quiet st /\ flat_o (s_dlv st) ++ fin (s_rcv st) = flat_m (ev_msgs evs).
   Proof.
     intros Hf Hr Hm st.
     assert (Hi : sys_inv (run sys0 evs)) by (apply sys_inv_run; auto using sys_inv_init).
